@@ -305,6 +305,13 @@ class GridWeighted(Grid):
             self._cache['gridptsw'][:] = []
             self._weights[:] = []
 
+    def bumps(self, num_bumps, **kwargs):
+        super(GridWeighted, self).bumps(num_bumps, **kwargs)
+        # Weighted grid points must be re-generated with the updated grid points
+        self._cache['gridptsw'][:] = []
+
+    bumps.__doc__ = Grid.bumps.__doc__
+
     @property
     def grid(self):
         """ Weighted grid points.
